@@ -102,6 +102,51 @@ def random_periodic_trace(args):
         real.close()
 
 
+def random_jitter_trace(args):
+    """A seeded random long run of a real PeriodicCallback(jitter=0.5) with scripted draws (base periods
+    that are multiples of 8 ticks, so every jittered period is a whole number of ticks)."""
+    tid, seed, length = args
+    rng = random.Random(seed)
+    cfg = {"p": rng.choice([8, 16, 24, 40, 64]), "kind": rng.choice(["sync", "raise", "coro", "coro", "cororaise"]),
+           "w0": rng.choice([0, 3, 100, 4000]), "jit": 1}
+    real = D.PeriodicReal(cfg, variant=rng.randrange(len(D.PERIODIC_SCALES)))
+    p = cfg["p"]
+    ev = []
+    mode = "sync"
+    try:
+        for _ in range(length):
+            running = real.pc.is_running()
+            acts = ["tick"] * 8
+            if not running and real.inflight == 0:
+                acts += ["start"] * 4
+            if running or rng.random() < 0.2:
+                acts += ["stop"]
+            if real.inflight:
+                acts += ["done"] * 3
+            a = rng.choice(acts)
+            f = rng.choice([6, 7, 8, 9])
+            args_ = []
+            if a == "tick":
+                if rng.random() < 0.15:
+                    mode = rng.choice(["sync", "sync", "slow", "fast", "jumpy"])
+                dm = rng.choice([0, 1, 3, p // 2, (3 * p) // 4, p - 1, p, p + 1, (5 * p) // 4, 2 * p, 3 * p + 1])
+                if mode == "sync":
+                    dw = dm
+                elif mode == "slow":
+                    dw = dm - rng.choice([0, 1, min(dm, 2)]) if dm else 0
+                elif mode == "fast":
+                    dw = dm + rng.choice([0, 1, p])
+                else:
+                    dw = rng.choice([-2 * p - 1, -p, -1, 0, 1, p, 5 * p + 2])
+                dw = max(dw, -real.wall, -1000)
+                args_ = [dw, dm]
+            obs = real.step(a, args_ if a == "stop" else args_ + [f])
+            ev.append({"a": a, "args": args_, "f": f, "obs": obs})
+        return {"id": tid, "cfg": {k: cfg[k] for k in ("p", "kind", "w0")}, "ev": ev}
+    finally:
+        real.close()
+
+
 def run(ctx):
     global _NVAR
     _NVAR = ctx.pick(2, len(D.PERIODIC_SCALES))
@@ -126,6 +171,19 @@ def run(ctx):
     traces = framework.pool_map(random_periodic_trace, [(i + 1, ctx.seed * 1000003 + i, ctx.pick(60, 100)) for i in range(n)])
     ctx.validate("loop", "Trace_Periodic", "Trace_Periodic.cfg", traces, label="c2s-periodic",
                  sig_fn=lambda t, bad, l: {"spec": "Periodic", "kind_": t["cfg"]["kind"]})
+    # extension: jitter = 1/2 with scripted draws (specs/loop/PeriodicJitter.tla)
+    ctx.mc("loop", "PeriodicJitter", "MC_PeriodicJitter.cfg", required_actions=["Start", "Stop", "Tick", "Done"],
+           overrides=ctx.pick({}, {"Periods": "{8, 16}", "MaxWall": 72, "MaxMono": 44,
+                                   "Ticks": "{300, 1003, 1008, 1511, 2013, 2310, 712, 5, 4028}"}),
+           timeout=ctx.pick(600, 2400))
+    jp = ctx.gen_paths("loop", "Gen_PeriodicJitter", "Gen_PeriodicJitter.cfg",
+                       overrides=ctx.pick({}, {"L": 6, "Kinds": '{"sync", "coro", "cororaise"}'}))
+    ctx.replay(jp, periodic_replayer, label="s2c-periodic-jitter",
+               nontrivial=lambda e, p: any(s["act"] == "tick" for s in p) and len(p[-1]["exp"]["sched"]) >= 2)
+    nj = ctx.pick(150, 2000)
+    jt = framework.pool_map(random_jitter_trace, [(i + 1, ctx.seed * 7000003 + i, ctx.pick(60, 100)) for i in range(nj)])
+    ctx.validate("loop", "Trace_PeriodicJitter", "Trace_PeriodicJitter.cfg", jt, label="c2s-periodic-jitter",
+                 sig_fn=lambda t, bad, l: {"spec": "PeriodicJitter", "kind_": t["cfg"]["kind"]})
     # proof component: the arithmetic facts for all integers (TLAPS)
     import os
     pr = D.run_tlapm(os.path.join(framework.VERIF, "specs", "loop", "PeriodicProof.tla"), ctx.scratch)
